@@ -524,7 +524,9 @@ func (g *isoGen) attack(p []byte) []byte {
 	r := g.r
 	h := hdrLen(p)
 	body := p[h:]
-	switch r.Intn(13) {
+	switch r.Intn(14) {
+	case 13: // a QoS 1/2 PUBLISH without packet identifier (identifier 0), addressed to the witness
+		return wPub{qos: 1 + r.Intn(2), topic: []byte("w"), id: 0, payload: g.smallPayload()}.encode()
 	case 0, 1: // truncated at a random offset (also inside the header)
 		return append([]byte{}, p[:r.Intn(len(p))]...)
 	case 2: // remaining length says less
@@ -678,6 +680,13 @@ func genBrokerIso(seed int64, n int, tier string, w *bufio.Writer) {
 		g.emit("pkt 1 subscribe 1 %s", subs)
 		g.emit("first 2 connect %s 4 0 1 ~ 0 0 %s ~ ~ 60 1", hexStr("MQTT"), hexStr("wpub"))
 		done += 3
+		if g.dollar {
+			// a subscriber whose filter makes the topic store look at the '$' level of "a/$b" (recorded finding B4:
+			// the store rejects that publish internally; the publisher must keep its connection all the same)
+			id := g.newAttacker()
+			g.emit("rawfirst %d %s 0", id, hexOf(append(g.connectBytes(id), wSubscribe(1, [][]byte{[]byte("a/+")}, []int{1})...)))
+			done++
+		}
 		eplen := 12 + r.Intn(40)
 		for i := 0; i < eplen && done < n; i++ {
 			var a int
